@@ -47,6 +47,9 @@ func SharedRun(w *World, rng *rand.Rand, ty string, ch, roFrames, wFrames, R, W,
 	defer func() { w.NoObs = false }()
 	total := roFrames + W*wFrames
 	root := w.filledRoot(ty, ch, total)
+	if isFloatTy(ty) { // NaN, infinities, negative zero among the shared samples (read-only use must not "repair" them)
+		w.WriteFloats(root, w.floatsFor(rng, ch*roFrames))
+	}
 	ragged := false
 	if mode == 0 || roFrames < 2 {
 		w.Slice(root, 0, roFrames)
@@ -69,17 +72,33 @@ func SharedRun(w *World, rng *rand.Rand, ty string, ch, roFrames, wFrames, R, W,
 		wins[i] = len(w.Views) - 1
 	}
 	kt := KindOf(ty)
-	// private conversion partners, allocated before the concurrent phase
+	// private conversion partners, allocated before the concurrent phase: readers use the shared window as the
+	// source of EVERY conversion family that accepts its element type
 	var convFn string
+	type rconv struct {
+		fn  string
+		dst int
+	}
+	var srcFns []ConvFn
 	for _, f := range ConvFns {
 		if contains(f.Src, kt) && contains(f.Dst, kt) {
 			convFn = f.Name
 		}
+		if contains(f.Src, kt) {
+			srcFns = append(srcFns, f)
+		}
 	}
+	rconvs := make([][]rconv, R)
 	rdst := make([]int, R)
 	for i := range rdst {
 		w.Alloc(kt, ch, roFrames, roFrames)
 		rdst[i] = len(w.Views) - 1
+		if ty == kt {
+			for _, f := range srcFns {
+				w.Alloc(f.Dst[rng.Intn(len(f.Dst))], ch, roFrames, roFrames)
+				rconvs[i] = append(rconvs[i], rconv{f.Name, len(w.Views) - 1})
+			}
+		}
 	}
 	wsrc := make([]int, W)
 	for i := range wsrc {
@@ -134,7 +153,11 @@ func SharedRun(w *World, rng *rand.Rand, ty string, ch, roFrames, wFrames, R, W,
 					case 3:
 						f.ChanShape(ro, r.Intn(ch))
 					case 4:
-						f.Read(ro, BuiltinTypes[r.Intn(len(BuiltinTypes))], l)
+						if isFloatTy(ty) {
+							f.Read(ro, kt, l)
+						} else {
+							f.Read(ro, BuiltinTypes[r.Intn(len(BuiltinTypes))], l)
+						}
 					}
 				} else if g < R {
 					l := f.Views[ro].Len()
@@ -177,11 +200,16 @@ func SharedRun(w *World, rng *rand.Rand, ty string, ch, roFrames, wFrames, R, W,
 							f.ChanIndex(ro, r.Intn(ch), r.Intn(roFrames), 0)
 						}
 					case 7:
-						if convFn != "" && ty == kt {
-							f.Convert(convFn, ro, rdst[g])
+						if len(rconvs[g]) > 0 {
+							rc := rconvs[g][r.Intn(len(rconvs[g]))]
+							f.Convert(rc.fn, ro, rc.dst)
 						}
 					case 8:
-						f.Read(ro, BuiltinTypes[r.Intn(len(BuiltinTypes))], l)
+						if isFloatTy(ty) { // (the shared float samples include NaN and infinities: no cross-type read)
+							f.Read(ro, kt, l)
+						} else {
+							f.Read(ro, BuiltinTypes[r.Intn(len(BuiltinTypes))], l)
+						}
 					}
 				} else {
 					wi := wins[g-R]
@@ -245,6 +273,12 @@ func driveShared(s *shardSet, rng *rand.Rand, thorough bool) ([]string, map[stri
 		procs := []int{1, 2, 4, 16}[i%4]
 		SharedRun(s.Next(), rng, ty, ch, 1+rng.Intn(4), 1+rng.Intn(3), R, W, ops, procs, i%3)
 		extra["goroutines_max"] = 16
+		extra["concurrent_phases"]++
+	}
+	// large windows (>= 4096 samples per writer): a conversion that splits big blocks over helper goroutines must
+	// still be race-free within its own window
+	for _, ty := range []string{"float64", "float32", "int16"} {
+		SharedRun(s.Next(), rng, ty, 2, 2, 2048, 2, 2, 4, 4, 0)
 		extra["concurrent_phases"]++
 	}
 	return types, extra
